@@ -203,6 +203,14 @@ fn build_blocks(thorough: bool) -> Vec<Block> {
         blocks_for("f2", Entry::Rdata { rtype: c, off: 12 }, &pfx12, Some(&S), l_rdata, &mut v);
     }
     blocks_for("f2", Entry::Name { off: 0 }, &[], Some(&S), l_name, &mut v);
+    // the name starts at every offset k of the string: octets before k are its own pointer targets
+    // (all small pointer graphs, incl. loops among earlier pointers)
+    for k in 1..=l_name {
+        let at = v.len();
+        blocks_for("f2", Entry::Name { off: k as u16 }, &[], Some(&S), l_name, &mut v);
+        let kept: Vec<Block> = v.drain(at..).filter(|b| b.len >= k).collect();
+        v.extend(kept);
+    }
     blocks_for("f2", Entry::Name { off: 12 }, &pfx12, Some(&S), l_name, &mut v);
     blocks_for("f2", Entry::Name { off: 0x3ffe }, &pfx3ffe, Some(&S), l_name, &mut v);
     blocks_for("f2", Entry::Record { off: 0 }, &[], Some(&S), l_name, &mut v);
@@ -308,6 +316,9 @@ fn replay(ctx: &Ctx, case: &Value) {
 fn main() {
     let ctx = Ctx::from_args("C01", "exploration");
     let thorough = !ctx.quick();
+    // the machine may be shared: a case is only called a hang after two minutes (the heaviest
+    // single item, a pairs-of-substitutions neighbourhood, needs a few CPU seconds)
+    ctx.case_timeout_s.store(120, std::sync::atomic::Ordering::Relaxed);
 
     if let Some((_key, case)) = ctx.replay_case() {
         replay(&ctx, &case);
@@ -319,10 +330,10 @@ fn main() {
          DnsResponse::from_buffer, signed_bitmessage_to_buf, Record::read, Name::read, RData::read for 89 type codes). \
          f1: ALL byte strings of length 0..2 (quick) / 0..3 (thorough) as whole input, as body after 15 header shapes, as \
          record/name/RDATA at offset 0 and at offset 12 behind pointer-target octets. f2: ALL strings over S={00,01,02,03,04,0c,\
-         3f,40,7f,80,bf,c0,c1,ff} of length <=6/5/6 (quick: body/RDATA/name) or <=7/6/7 (thorough), names also at offset 0x3ffe. \
+         3f,40,7f,80,bf,c0,c1,ff} of length <=6/5/6 (quick: body/RDATA/name) or <=7/6/7 (thorough), names also at every offset k of the string itself (earlier octets are pointer targets) and at offset 0x3ffe. \
          f3: complete single-edit neighbourhoods (every truncation, every octet x all 256 values, insert/delete over S, every \
          16-bit window set to 8 boundary values; thorough: all pairs of S-substitutions on messages) of a seed corpus of valid \
-         messages / records / RDATA / names covering every RData variant, EDNS, TSIG, compression. f4: 17 growth families for \
+         messages / records / RDATA / names covering every RData variant, EDNS, TSIG, compression. f4: 19 growth families for \
          n = 1..64, 128, 256, ... up to the largest n that fits 65,535 octets. Oracle: returns (no panic); decoder ticks <= \
          256*len+4096 and (f4) ticks/len at any size <= 4x the maximum seen up to 4 KiB; every decoded Name <= 255 octets, \
          labels <= 63 (from the label iterator). distinct_nontrivial = distinct (entry, input) digests that were accepted or \
@@ -362,7 +373,10 @@ fn main() {
     let blocks = build_blocks(thorough);
     ctx.set("f1_f2_blocks", json!(blocks.len()));
     ctx.set("f1_f2_strings", json!(blocks.iter().map(|b| b.count).sum::<u64>()));
+    // f1/f2 chunks take milliseconds: call 30 s a hang there
+    ctx.case_timeout_s.store(30, std::sync::atomic::Ordering::Relaxed);
     ctx.par_run(blocks.len() as u64, 4, |i, l| run_block(&blocks[i as usize], l));
+    ctx.case_timeout_s.store(120, std::sync::atomic::Ordering::Relaxed);
 
     // family 3
     let mut items: Vec<EditItem> = vec![];
